@@ -117,8 +117,10 @@ Definition svm_update (s : st) (i j : nat) : st :=
 
 (* ---------------- Impl/AnalyticProblems.h ---------------- *)
 
+(* since the repair of solveQuadraticEdge (finding "edge1d:tiny-Q"): only Q <= 0 is degenerate
+   (before: Q < 1e-12, which overshot the maximum for 0 < Q < 1e-12) *)
 Definition solve_edge (a g Q L U : A) : A :=
-  if ltb Q thr then (if ltb zero g then U else L)
+  if negb (ltb zero Q) then (if ltb zero g then U else L)
   else minA (maxA (add a (div g Q)) L) U.
 
 Definition gain2 (gi gj Qii Qij Qjj mui muj : A) : A :=
